@@ -21,7 +21,7 @@ NoCur == [p \in Procs |-> "none"]
 
 TraceInit == cands = Cands0 /\ pend = LQ!LqNoPend /\ cur = NoCur /\ resv = 0 /\ TBInit
 
-OpName(x) == IF x \in {"alloc", "pop", "dequeue", "poll"} THEN "deq"
+OpName(x) == IF x \in {"alloc", "alloc_with", "pop", "dequeue", "poll"} THEN "deq"
              ELSE IF x \in {"dealloc_id", "dealloc_ref", "dealloc_last", "push", "enqueue", "send", "send_with", "pub_idx"} THEN "enq" ELSE x
 
 TReset == Ev.k = "reset" /\ cands' = Cands0 /\ pend' = LQ!LqNoPend /\ cur' = NoCur /\ resv' = 0
